@@ -250,6 +250,18 @@ def window(R, rep):
         keys, asc = [], True
         if clo in F.bodies:
             ct = Terms(F, F.bodies[clo], inline_depth=1)
+            if m.endswith("by_key"):
+                # key-extraction form: the closure's value is the key (a field of its parameter, or a tuple of them, first
+                # component most significant); `Reverse(..)` turns the order round
+                ret = ct.local(0)
+                if any(isinstance(x, tuple) and x and x[0] == "adt" and "Reverse" in str(x[1]) for x in subterms(ret)) or \
+                        any(isinstance(x, tuple) and x and x[0] == "call" and "Reverse" in str(x[1]) for x in subterms(ret)):
+                    asc = False
+                comps = list(ret[1]) if isinstance(ret, tuple) and ret and ret[0] == "tuple" and isinstance(ret[1], (list, tuple)) else [ret]
+                for cpt in comps:
+                    pr = c16._param_root(cpt)
+                    if pr:
+                        keys.append(".".join(x for x in pr[1] if not x.endswith("()")))
             for lhs, rhs in c16._cmp_orientation(ct.local(0)):
                 lr, rr = c16._param_root(lhs), c16._param_root(rhs)
                 if lr and rr:
